@@ -164,6 +164,32 @@ def run_case(c):
             seq = m["om"].DNA.make_seq(c["s"], name="s0")
             return list(translate_frames(seq, gc=c["id"], allow_rc=True))
         return observe(f)
+    if k == "app_translate_seqs":
+        # cogent3.app.translate.translate_seqs on a collection (aligned or not), both trim settings
+        def f(trim):
+            from cogent3.app.translate import translate_seqs
+
+            data = {f"s{i}": s for i, s in enumerate(c["seqs"])}
+            mk = m["cogent3"].make_aligned_seqs if c["aligned"] else m["cogent3"].make_unaligned_seqs
+            res = translate_seqs(moltype="dna", gc=c["id"], trim_terminal_stop=trim)(mk(data, moltype="dna"))
+            if type(res).__name__ == "NotCompleted":
+                return Exc(E_ALPHA)
+            d = res.to_dict()
+            return [str(d[n]) for n in data]
+        return [observe(f, False), observe(f, True)]
+    if k == "app_select":
+        # select_translatable with a given frame: the in-frame part of every sequence without internal stop
+        def f(trim):
+            from cogent3.app.translate import select_translatable
+
+            data = {f"s{i}": s for i, s in enumerate(c["seqs"])}
+            app = select_translatable(moltype="dna", gc=c["id"], frame=c["frame"], trim_terminal_stop=trim)
+            res = app(m["cogent3"].make_unaligned_seqs(data, moltype="dna"))
+            if type(res).__name__ == "NotCompleted":
+                return []
+            d = res.to_dict()
+            return [[n, str(d[n])] for n in data if n in d]
+        return [observe(f, False), observe(f, True)]
     if k == "gettrans":
         return [observe(get_trans, c["kind"], c["id"], c["seqs"], ok, inc, trim) for ok, inc, trim in BOOLS3]
     if k == "complement":
